@@ -429,6 +429,26 @@ func graphUnits() []Unit {
 		f.P.SourceCodeInfo = sci
 		out = append(out, Unit{ID: id, Label: "comments (block terminators, directives, CRLF, templates) on every kind of declaration; deprecated options everywhere; custom json names", Files: []*descriptorpb.FileDescriptorProto{f.P}, Expect: "ok"})
 	}
+	// one Go package built from two proto packages; the importer's file name sorts first and it uses the import's types
+	{
+		id := "g_twopkgs"
+		goPkg := GenRoot + "c12/" + id
+		dep := NewFile("c12/"+id+"/z_dep.proto", "c12."+id+".types", goPkg)
+		de := dep.Enum("Kind", "KIND_ZERO", 0, "KIND_ONE", 1)
+		dm := dep.Msg("Dep")
+		dm.Field("n", 1, S(Int32))
+		dm.Field("label", 2, S(String))
+		first := NewFile("c12/"+id+"/a_first.proto", "c12."+id+".api", goPkg, "c12/"+id+"/z_dep.proto")
+		fm := first.Msg("First")
+		fm.Field("dep", 1, M(dm.Full()))
+		fm.Field("kind", 2, E(de))
+		fm.Rep("deps", 3, M(dm.Full()))
+		fm.Map("by", 4, String, E(de))
+		same := NewFile("c12/"+id+"/b_same.proto", "c12."+id+".types", goPkg, "c12/"+id+"/z_dep.proto")
+		sm := same.Msg("Same")
+		sm.Field("dep", 1, M(dm.Full()))
+		out = append(out, Unit{ID: id, Label: "one Go package from two proto packages, importer file sorting first", Files: []*descriptorpb.FileDescriptorProto{dep.P, first.P, same.P}, Expect: "ok"})
+	}
 	// go_package of the form "import/path;name": the package clause differs from the directory name; used from another package
 	{
 		id := "g_goalias"
